@@ -837,15 +837,14 @@ class Process:
     def memory_maps(self):
         try:
             raw = cext.proc_memory_maps(self.pid)
-        except OSError as err:
-            # XXX - can't use wrap_exceptions decorator as we're
-            # returning a generator; probably needs refactoring.
-            raise convert_oserror(err, self.pid, self._name) from err
-        else:
             for addr, perm, path, rss in raw:
                 path = convert_dos_path(path)
                 addr = hex(addr)
                 yield (addr, perm, path, rss)
+        except OSError as err:
+            # XXX - can't use wrap_exceptions decorator as we're
+            # returning a generator; probably needs refactoring.
+            raise convert_oserror(err, self.pid, self._name) from err
 
     @wrap_exceptions
     def kill(self):
